@@ -11,7 +11,7 @@ from .tyres import Resolver, show_rope
 from mirsym.interp import Hole
 
 G = tyres.G
-GENERIC_ITEMS = ['Inner', 'G1', 'G2', 'G3', 'G4', 'G5', 'G6', 'G7', 'G8', 'G9', 'G10', 'G11', 'G12', 'G13', 'G14', 'G15', 'G16', 'G17', 'Tg1', 'PF5', 'P1', 'P2', 'P3', 'P5', 'P6',
+GENERIC_ITEMS = ['Inner', 'G1', 'G2', 'G3', 'G4', 'G5', 'G6', 'G7', 'G8', 'G9', 'G10', 'G11', 'G12', 'G13', 'G14', 'G15', 'G16', 'G17', 'Tg1', 'PF5', 'IO1', 'FL2', 'TS1', 'NT1', 'EU', 'ET', 'EA', 'IE1', 'IT1', 'IA1', 'IX1', 'IU1', 'Mk', 'Ov', 'K1', 'K2', 'K3', 'K4', 'K5', 'K6', 'K7', 'P1', 'P2', 'P3', 'P5', 'P6',
                  'P8', 'P9', 'R1', 'R2', 'E5']
 
 
@@ -296,6 +296,13 @@ def native_confirm(v, nat):
         return not (declc.startswith('type ') and declc.endswith(' = ' + inl + ';'))
     if 'name()' in v['what']:
         return not re.fullmatch(r'[\w$]+(<(Arg1|Arg2)(, (Arg1|Arg2))*>)?', nm)
+    if 'declaration header' in v['what']:
+        # the binder list of the natively compiled declaration names exactly the non-concretised type parameters, in order
+        hm = re.match(r'^type [\w$]+(?:<(.*?)>)? = ', decl)
+        if not hm:
+            return True
+        got = [b.split('=')[0].strip() for b in mirparse.split_top(hm.group(1))] if hm.group(1) else []
+        return got != list(G['corpus'][name]['free'])
     # header / body equations: re-derive the expected text from the native inline()
     body = decl.split(' = ', 1)[1][:-1] if ' = ' in decl else ''
     item = G['corpus'][name]
